@@ -270,10 +270,15 @@ def run_job(job, canary=False):
     res["obligations"] = len(results)
     failed = []
     reach = {}
+    probes = {}
     unwind_fail = []
     for r in results:
         desc = r.get("description", "")
         st = r.get("status")
+        if desc.startswith("reach-probe: "):
+            if r.get("sourceLocation", {}).get("function") == job.entry and not canary:
+                probes[desc[len("reach-probe: "):]] = (st == "FAILURE")
+            continue
         if desc.startswith("canary-reach: "):
             if r.get("sourceLocation", {}).get("function") == job.entry:
                 reach[desc[len("canary-reach: "):]] = (st == "FAILURE")
@@ -302,6 +307,8 @@ def run_job(job, canary=False):
             if not failed:
                 return res
     res["reach"] = reach
+    res["probes"] = probes
+    res["obligations"] -= len(probes)
     res["failed"] = failed
     res["seconds"] = round(time.time() - t0, 2)
     if unwind_fail:
@@ -453,6 +460,7 @@ def run_property(prop, jobs, tier, level="proof", assumptions=(), trusted_base=(
     known = load_known(prop)
     obligations = discharged = 0
     reach_seen = {}
+    probe_seen = {}
     neg_controls = []
     for j, c, r in results:
         if r["status"] in ("error", "timeout"):
@@ -462,6 +470,11 @@ def run_property(prop, jobs, tier, level="proof", assumptions=(), trusted_base=(
             for k, v in r["reach"].items():
                 reach_seen[(j.group, k)] = reach_seen.get((j.group, k), False) or v
             continue
+        pr = r.get("probes", {})
+        if pr and not any(pr.values()) and not j.expect_fail:
+            infra.append("%s: no REACH point of the harness is reachable under its assumptions (vacuous run)" % j.name)
+        for k, v in pr.items():
+            probe_seen[(j.entry, k)] = probe_seen.get((j.entry, k), False) or v
         if j.expect_fail:
             hit = [e for e in r["failed"] if re.search(j.expect_fail, e["description"] or "")]
             neg_controls.append(dict(job=j.name, must_fail=j.expect_fail, fired=bool(hit)))
@@ -486,6 +499,9 @@ def run_property(prop, jobs, tier, level="proof", assumptions=(), trusted_base=(
     for (g, k), v in reach_seen.items():
         if not v:
             infra.append("canary: REACH(%s) in %s is unreachable under the harness assumptions (vacuous)" % (k, g))
+    for (g, k), v in probe_seen.items():
+        if not v:
+            infra.append("reach-probe: REACH(%s) in %s is not reachable in any run of this check (vacuous branch)" % (k, g))
     if obligations < min_obligations and not infra:
         infra.append("only %d obligations generated (minimum %d): vacuous run" % (obligations, min_obligations))
 
@@ -550,6 +566,7 @@ def run_property(prop, jobs, tier, level="proof", assumptions=(), trusted_base=(
             jobs=len([1 for j, c, r in results if not c]),
             canary_runs=len([1 for j, c, r in results if c]),
             canary_reach_points={"%s/%s" % k: v for k, v in sorted(reach_seen.items())},
+            reach_probes={"%s/%s" % k: v for k, v in sorted(probe_seen.items())},
             negative_controls=neg_controls,
             functions_under_contract=funcs,
             functions_note=functions_note,
